@@ -16,13 +16,16 @@ ARGV = [b"", b"x", b"a.b", b"a.b.c", b"/", b"/a", b"/a/", b"/a/b", b"com.example
 DEFAULT_WEIGHTS = {
     "connect": 4, "hello": 6, "close": 2, "request": 14, "release": 7, "query": 6, "addmatch": 8, "removematch": 4,
     "signal": 12, "call": 12, "reply": 8, "driver_edge": 5, "forged": 6, "garbage": 1, "badtype": 2, "nodest": 2, "sleep": 0, "monitor": 0,
-    "hostile": 0, "preauth": 0, "fdsend": 0,
+    "hostile": 0, "preauth": 0, "fdsend": 0, "stall": 0, "unstall": 0,
 }
 
 
 class Gen:
-    def __init__(self, rng, weights=None, max_conns=5, uids=(0,), fdpass=False, names=None, rule_uniques=True, big=None, maxfds=16):
+    def __init__(self, rng, weights=None, max_conns=5, uids=(0,), fdpass=False, names=None, rule_uniques=True, big=None, maxfds=16,
+                 no_eavesdrop=False):
         self.maxfds = maxfds
+        self.no_eavesdrop = no_eavesdrop
+        self.stalled = set()
         self.r = rng
         self.w = dict(DEFAULT_WEIGHTS)
         if weights:
@@ -145,6 +148,18 @@ class Gen:
             return
         if k == "sleep":
             self.ops.append(("sleep",)); self.count("sleep"); self.calls = []
+            return
+        if k == "stall":
+            cands = [c for c, v in self.open.items() if v["active"] and c != 0 and c not in self.stalled]
+            if cands and len(self.stalled) < 2:
+                c = self.r.choice(cands); self.stalled.add(c)
+                self.ops.append(("stall", c)); self.count("stall")
+            return
+        if k == "unstall":
+            if self.stalled:
+                c = self.r.choice(sorted(self.stalled)); self.stalled.discard(c)
+                if c in self.open:
+                    self.ops.append(("unstall", c)); self.count("unstall")
             return
         if k == "preauth":
             self.do_preauth(); return
@@ -533,7 +548,7 @@ class Gen:
         if self.r.random() < 0.15:
             uniques = [v["unique"] for v in self.open.values() if v["unique"]] if self.rule_uniques else []
             parts.append(b"destination='" + self.r.choice(NAMES + uniques) + b"'")
-        if self.r.random() < 0.2: parts.append(b"eavesdrop='" + self.r.choice([b"true", b"false"]) + b"'")
+        if self.r.random() < 0.2 and not self.no_eavesdrop: parts.append(b"eavesdrop='" + self.r.choice([b"true", b"false"]) + b"'")
         if self.r.random() < 0.3:
             parts.append(self.r.choice([b"arg0='", b"arg1='", b"arg0path='", b"arg0namespace='"]) + self.r.choice(ARGV) + b"'")
         return b",".join(parts)
